@@ -371,7 +371,7 @@ func runC02(p *Prog, r *Report, tier string) {
 		for _, call := range vc.calls("types.UsedNonceKey") {
 			n++
 			args := vc.args(call)
-			vc.teq("K-agree", "validate-key-order", strings.Join(args, ","), "p0.UsedNoncesList[*].Nonce,p0.UsedNoncesList[*].SourceDomain", p.instrPos(call))
+			vc.teq("K-agree", "validate-key-order", strings.Join(args, ","), "p0.UsedNoncesList[#i0].Nonce,p0.UsedNoncesList[#i0].SourceDomain", p.instrPos(call))
 		}
 		r.check(n == 1, "K-agree", "K-agree/used-nonces/Validate-site", vc.pos(), "Validate derives the used-nonce key once", fmt.Sprintf("%d UsedNonceKey calls in Validate", n))
 	}
